@@ -77,6 +77,11 @@ def run(ctx, rep):
                 replies += [[(0, 0, 77)]] * 6
                 cases.append((conns, [[(0, 1, 0)]] * 10, replies, ops))
                 meta.append(("faults", v3, level, seq))
+    # ---- handshake transmissions answered LATER than the read timeout, then a pause and a promptly answering device --------
+    import sessgen
+    for c in sessgen.late_hs_histories(rng, ctx.n(50, 1500)):
+        cases.append(c)
+        meta.append(("late-handshake-replies", True, None, None))
     res = sess.compare(ctx, rep, cases, tag="retry-recovery")
     for (im, md), c, mt in zip(res, cases, meta):
         now, lan, outcomes, events = im
@@ -86,6 +91,11 @@ def run(ctx, rep):
         im = sess.run_impl(ctx.model, rng, *c)
         now, lan, outcomes, events = im
         tx = tx_counts(events, c[3], sess.run_impl.last_opinfo)
+        for op, out, n, info in zip(c[3], outcomes, tx, sess.run_impl.last_opinfo):
+            # an exchange that starts on a live (and, for V3, authenticated) connection has nothing to do but transmit its request
+            if op[0] in (1, 3) and (op[2] if op[0] == 1 else 3) >= 1 and n == 0 and info["alive"] and (info["authed"] or not info["v3"]):
+                rep.fail("oracle", "request-never-transmitted", sess_case(c), {"op": op, "entry": info, "outcome": out})
+                break
         for op, out, n in zip(c[3], outcomes, tx):
             budget = op[2] if op[0] == 1 else 3
             if op[0] in (1, 3) and budget >= 1 and out[0] == 0 and (op[0] == 1 or len(out) > 1) and not (1 <= n <= budget):
@@ -111,6 +121,12 @@ def run(ctx, rep):
                 rep.fail("oracle", "exhaustion-not-a-timeout", sess_case(c), {"tx": n, "outcome": out})
             if expect is None and outcomes[k + 1][0] != 0:
                 rep.fail("oracle", "device-level-raised", sess_case(c), {"outcome": outcomes[k + 1]})
+        elif mt[0] == "late-handshake-replies":
+            # with cached credentials (histories of 6 operations) at most ONE of the two final exchanges may fail
+            if len(c[3]) == 6:
+                ok = [o[0] == 0 and len(o) > 1 for o in outcomes]
+                if not ok[4] and not ok[5]:
+                    rep.fail("oracle", "no-recovery-after:late-handshake-replies", sess_case(c), {"outcomes": outcomes, "events": events})
         else:
             last = outcomes[-1]
             if last[0] != 0 or 77 not in last[1:]:
